@@ -54,3 +54,12 @@ Theorem C03_path_hidden_piece : forall ts (s' : str),
   (exists r, ts = C01Flat.TStar :: r /\ C02Path.DenSeg false false r (46%N :: s')).
 Proof. exact C02Path.hidden_piece_needs_written_dot. Qed.
 Print Assumptions C03_path_hidden_piece.
+
+(* `**` without DOTMATCH: a name matched by the lone pattern `**` neither starts with `.` nor contains "/." - a `**`
+   never descends into (or lists) a hidden entry *)
+From WC.Proofs Require C02Glob.
+Theorem C03_lone_globstar_no_hidden : forall n,
+  C02Path.nonl n -> C02Glob.DenG false true [C02Glob.PGstar] n ->
+  (forall y, n <> 46%N :: y) /\ (forall u v, n <> u ++ 47%N :: 46%N :: v).
+Proof. exact C02Glob.lone_globstar_no_hidden. Qed.
+Print Assumptions C03_lone_globstar_no_hidden.
